@@ -828,24 +828,49 @@ func c12Check101(out *core.Out, q *hsReq, u upCfg, o *hsOutcome, fail func(strin
 		fail("deflate-announced", fmt.Sprintf("permessage-deflate announced although enabled=%v and the client's offer is %s", u.Compress, className[q.deflateOffer()]))
 		return
 	}
-	// line accounting: no application value can have produced an extra line
-	want := 1 + 3 + len(protos) + len(ext)
+	// line accounting: every header line is either one of the protocol's own or is
+	// accounted for by exactly one application-supplied value of that name
+	protocolOwned := map[string]bool{"upgrade": true, "connection": true, "sec-websocket-accept": true, "sec-websocket-protocol": true, "sec-websocket-extensions": true, "date": true, "server": true, "sec-websocket-version": true}
+	wantApp := map[string]int{}
 	napp := 0
 	for k, vs := range u.RespHdr {
 		if k == "Sec-Websocket-Protocol" {
 			continue
 		}
+		wantApp[strings.ToLower(k)] += len(vs)
 		napp += len(vs)
 	}
-	want += napp
-	if h.Lines != want {
-		sig := "header-injection"
-		if hasApp && u.SubNil && strings.ContainsAny(appProto[0], "\r\n") {
-			sig = "header-injection-via-application-subprotocol"
+	gotApp := map[string]int{}
+	for _, f := range h.Fields {
+		n := strings.ToLower(f.Name)
+		if _, isApp := wantApp[n]; isApp {
+			gotApp[n]++
+			continue
 		}
-		fail(sig, fmt.Sprintf("the 101 has %d lines, expected %d (status + 3 protocol headers + %d protocol + %d extensions + %d application values): an application-supplied value produced an extra line", h.Lines, want, len(protos), len(ext), napp))
+		if !protocolOwned[n] {
+			sig := "header-injection"
+			if hasApp && u.SubNil && strings.ContainsAny(appProto[0], "\r\n") {
+				sig = "header-injection-via-application-subprotocol"
+			}
+			fail(sig, fmt.Sprintf("the 101 carries a header line %q that is neither a protocol header nor one of the application-supplied names: an application value produced an extra line", f.Name))
+			return
+		}
+	}
+	for n, w := range wantApp {
+		if gotApp[n] != w {
+			sig := "header-injection"
+			if gotApp[n] < w {
+				sig = "application-header-lost"
+			}
+			fail(sig, fmt.Sprintf("the application supplied %d values for header %q but the 101 has %d lines with that name", w, n, gotApp[n]))
+			return
+		}
+	}
+	if hasApp && u.SubNil && len(protos) != 1 {
+		fail("header-injection-via-application-subprotocol", fmt.Sprintf("the application chose one subprotocol but the 101 has %d Sec-WebSocket-Protocol lines", len(protos)))
 		return
 	}
+	_ = napp
 	for _, f := range h.Fields {
 		if strings.EqualFold(f.Name, "X-Injected") {
 			fail("header-injection", "an injected header line X-Injected is present in the 101")
